@@ -106,7 +106,8 @@ class UpdateReferences:
           elem.line = newref
           found = True
     if newref is None and found:
-      lst[:] = [e for e in lst if e is not None]
+      lst[:] = [e for e in lst if e is not None and not \
+                (isinstance(e, gfapy.OrientedLine) and e.line is None)]
 
   def __update_field_references(self, oldref, newref, possible_fieldnames):
     for fn in possible_fieldnames:
